@@ -789,17 +789,36 @@ func (w *wcase) sitPendingAccept() {
 	var once sync.Once
 	w.release = func() { once.Do(func() { close(park) }) }
 	p1 := w.newSock(kindByName(w.k.peer), "peer1")
-	p2 := w.newSock(kindByName(w.k.peer), "peer2")
-	w.socks = []*sock{w.subj, p1, p2}
+	w.socks = []*sock{w.subj, p1}
 	addr := w.listen(w.subj, w.newAddr("l"))
 	w.dial(p1, addr, true)
 	if !poll(setupWatchdog, 2*time.Millisecond, func() bool { return atomic.LoadInt32(&parked) == 1 }) {
 		w.release()
 		w.setupFail("the accept loop never reached the Attaching hook")
 	}
-	w.dial(p2, addr, true)
+	waiting := 1
+	if w.spec.Var == "3" {
+		waiting = 3
+	}
+	var late []*sock
+	for i := 0; i < waiting; i++ {
+		p := w.newSock(kindByName(w.k.peer), fmt.Sprintf("peer%d", i+2))
+		w.socks = append(w.socks, p)
+		late = append(late, p)
+		w.dial(p, addr, true)
+	}
 	// the dialling side attaches as soon as the transport level handshake is through
-	if poll(5*time.Second, 2*time.Millisecond, func() bool { return p2.live() >= 1 || w.t.family == "inproc" }) {
+	if poll(5*time.Second, 2*time.Millisecond, func() bool {
+		if w.t.family == "inproc" {
+			return true
+		}
+		for _, p := range late {
+			if p.live() < 1 {
+				return false
+			}
+		}
+		return true
+	}) {
 		time.Sleep(30 * time.Millisecond)
 		w.res.InProgress = true
 	}
